@@ -18,6 +18,7 @@ import (
 	"sync"
 	"sync/atomic"
 	"syscall"
+	"testing/synctest"
 	"time"
 
 	"github.com/redis/rueidis/internal/util"
@@ -124,6 +125,55 @@ func queueOwner(obj any) string {
 	return ""
 }
 
+// Dead-pipe clean-up barrier (opt-in, enableSpinSettle). The clean-up loop of a dead pipe spins (runtime.Gosched)
+// while callers are still registered on it and nothing is ready to be handed to them. By default the glue turns every
+// turn into a sleep of one fake millisecond; whether the loop finds the in-flight callers' entries on its first turn or
+// only after the writer goroutine has noticed the failure and exited is decided by the Go runtime, so callers are
+// released at fake time T in one process and one millisecond (and a scheduler tick) later in another, and their retry
+// timers shift with it. With the barrier the loop blocks on a channel instead, and before the scheduler looks at the
+// outcome of a step (Sim.Settle) the blocked loops are released again and again, with a wait for quiescence in
+// between, until none is left or a bound is reached. No fake time passes: what a connection's death releases is
+// released in the step in which it died. (First built for the lua-exec scenario.)
+var spinSettle struct {
+	on  atomic.Bool
+	mu  sync.Mutex
+	chs []chan struct{}
+}
+
+func spinPark() {
+	ch := make(chan struct{})
+	spinSettle.mu.Lock()
+	spinSettle.chs = append(spinSettle.chs, ch)
+	spinSettle.mu.Unlock()
+	<-ch
+}
+
+func settleSpinners(s *sched.Sim) {
+	for round := 0; round < 20; round++ {
+		spinSettle.mu.Lock()
+		ws := spinSettle.chs
+		spinSettle.chs = nil
+		spinSettle.mu.Unlock()
+		if len(ws) == 0 {
+			return
+		}
+		s.Stats["cleanup-loop-turns"] += len(ws)
+		for _, ch := range ws {
+			close(ch)
+		}
+		synctest.Wait()
+	}
+}
+
+// enableSpinSettle turns the barrier on for the current run (reset by newEnv / VerifSetSim).
+func enableSpinSettle(s *sched.Sim) {
+	spinSettle.mu.Lock()
+	spinSettle.chs = nil
+	spinSettle.mu.Unlock()
+	spinSettle.on.Store(true)
+	s.Settle = settleSpinners
+}
+
 func muxRegName(w *muxwire) string {
 	muxReg.mu.Lock()
 	defer muxReg.mu.Unlock()
@@ -164,6 +214,18 @@ func installHooks() {
 			// the run is over; a clean-up loop that still has registered callers (hung calls) would spin forever and
 			// keep the bubble alive: block it for good, the bubble then ends with "blocked goroutines remain"
 			select {}
+		}
+		if site == "pipe.cleanup.spin" && spinSettle.on.Load() && !fineSites.Load() {
+			spinPark()
+			return
+		}
+		if richIdent.Load() {
+			if id := sched.TaskID(ctx); id != "" {
+				// lock waits are identified by the waiting goroutine's name; batch fan-outs run one node on the caller's
+				// goroutine and the others on new ones (which is which is Go map order): every goroutine that works for
+				// a task carries the task's name
+				nameGoroutine(id)
+			}
 		}
 		if site == "pipe.cleanup.spin" && !fineSites.Load() {
 			// The clean-up loop of a dead pipe spins with Gosched while callers are still registered. A spinning
@@ -480,6 +542,7 @@ func VerifSetSim(s *sched.Sim, seed uint64) {
 		queueTypeFromEnv = ""
 		muxRegReset(0)
 		richIdent.Store(false)
+		spinSettle.on.Store(false)
 		yieldFullIdentity.Store(false)
 		cleanupSpinBudget.Store(0)
 		cleanupSpinCounts.Store(&sync.Map{})
@@ -510,6 +573,9 @@ func VerifPinAllParallelism(n int) {
 	muxReg.pinP = n
 	muxReg.mu.Unlock()
 }
+
+// VerifSpinSettle turns on the dead-pipe clean-up barrier for the current run (see spinSettle).
+func VerifSpinSettle(s *sched.Sim) { enableSpinSettle(s) }
 
 // VerifRichIdentities turns on connection- and goroutine-qualified identities at the queue hand-off yield sites.
 func VerifRichIdentities(on bool) { richIdent.Store(on) }
